@@ -44,6 +44,27 @@ CHECKS = {
  "C19": ("exploration", "offline history checker over burst hits and upstream fetch intervals (background vs request-path classification) on the real binary in real time",
          "Bursts of 1-200 concurrent hits in the last quarter of a 12 s entry while refreshes take 1.5 s or fail: hits must show the cached reply quickly, background refresh intervals must be disjoint, the renewed entry must be visible after a successful refresh and the old one after a failed one.",
          "Latency verdict needs a quarter of the burst to be slow; keepalive traffic keeps pooled upstream connections from idling out", "C19"),
+ "C01": ("exploration", "crash/hang/sanitizer monitor: decoder driven in child processes under the race detector, checkptr and the pool sanitizer with a last-input log and watchdog; hostile inputs on all listeners and hostile upstream replies against the real binary, each followed by liveness probes",
+         "200k (quick) mutated byte strings through UnpackMsg/Pack/ToReadable/ReadMsgFromTCP in children (crash, race, pool/ownership report or hang names its input); hostile datagrams/frames/DoH requests on 8 listeners and hostile replies on 6 upstream transports of the real binary, the process must stay alive and answer valid probes.",
+         "All byte strings is sampled by structure-aware mutators, not enumerated; HTTP status expectation uses the proxy's own decoder as the definition of 'decodable'", "C01"),
+ "C02": ("exploration", "differential runtime monitor (in-process): reference encoder/decoder (refmsg), miekg/dns and x/net dnsmessage vs Msg.Unpack/Pack on generated messages with hostile label alphabets and label-boundary mimicry",
+         "Each generated message is reference-encoded (optionally with legal pointer chains), decoded by mosproxy and re-encoded with and without compression; both encodings must decode (mosproxy, reference, miekg, x/net) to the same content, Len() must equal the uncompressed size, re-encoding must be a fixpoint.",
+         "Trusts the 600-line reference model and the two independent decoders; the reserved Z header bit is masked; RDATA of types miekg expands but mosproxy keeps opaque is skipped for miekg", "C02"),
+ "C05": ("fault_enumeration", "offline join of scripted-server logs (conn, wire ID, nonce) with caller-side call/return logs over many short concurrent histories; ID-exhaustion run",
+         "Scripted servers reorder, delay, duplicate, drop, inject unsolicited and late replies; rules R1-R6 (reply was sent, for this exchange's wire ID on that connection, caller ID restored, at most one exchange per reply, wire IDs pairwise distinct per connection) are checked offline; 140k exchanges through one transport must never reuse an ID.",
+         "Histories are short and many; a missing return is inconclusive here (C14 judges termination)", "C05"),
+ "C06": ("fault_enumeration", "server-side online assertion (outstanding queries per connection <= 1) + nonce join under a cancellation / idle-timeout sweep against ReuseConnTransport and the UDP upstream's TCP fallback",
+         "Caller deadlines are swept across the scripted server's reply schedule (before write, between write and reply, mid-reply, after) and idle timers around reuse instants; every returned message must carry its own query's nonce and ID and no connection may ever carry two outstanding queries.",
+         "Scripted server sends exactly one reply per query", "C06"),
+ "C09": ("exploration", "runtime monitor on Msg.Pack output (size bound, decodability by three decoders, subsequence/OPT/question retention, TC iff omitted) over generated messages x limits; end-to-end size check on every listener for large keyed answers",
+         "20k (quick) (message, limit, compression, convention) tuples incl. every boundary +-1 around Len() and record ends; E2E: answers of 300 B-60 kB fetched over UDP with advertised sizes and over stream/DoH/DoQ listeners, every received datagram/frame/body checked against the limit and the upstream's original.",
+         "OPT records fed carry at most 64 option octets; header id/flags other than TC are not judged here", "C09"),
+ "C14": ("fault_enumeration", "return-time and dial-count rules over the matrix transport x fault kind x protocol step with scripted faulty servers and fault-injecting dialers; candidates re-run 3x",
+         "Every (transport, fault, step) cell: refuse, hanging dial, TLS stall, silent, half frame, garbage, FIN, RST at dial / after write / mid reply / while idle; T1 return <= deadline+1.5 s, T2 stale pooled connections survived with bounded dials, T3 waiters on a dead connection released promptly, T4 fresh-connection failure reported with <= 8 dials.",
+         "Wall clock with seconds of gap between correct and violating behaviour; h3 skipped", "C14"),
+ "C16": ("fault_enumeration", "per-leg marker rules over the matrix UDP outcome x TCP outcome with a scripted server on one UDP+TCP port",
+         "All cells {udp: tc|ok|silent} x {tcp: ok|refuse|silent|garbage|close}: a returned message never carries TC from the UDP leg, TC => same question arrives over TCP and its outcome is returned, no TC => no TCP connection at all.",
+         "Leg markers and nonces embedded in AAAA RDATA by the scripted server", "C16"),
 }
 NOT_YET = {}
 
